@@ -133,3 +133,31 @@ void h_C09_dly(void)
 	}
 	SENTINEL("dly");
 }
+
+/* WEEKLY: memory safety, <= nti, <= COUNT, termination, within [DTSTART, UNTIL] */
+void h_C09_wly(void)
+{
+	IN_INSTANT_FIELDS(proto);
+	IN_INSTANT_FIELDS(until);
+	IN_RANGE(size_t, nti, 1, NTI);
+	IN_RANGE(int, count, -1, 1000);
+	IN_RANGE(unsigned, inter, 1, RR_INTER_MAX);
+	IN_RANGE(size_t, k, 0, NTI - 1);
+	ASSUME(I_VALID(proto) && !I_ALLSEC(proto) && proto.ms == 0U);
+	ASSUME(until.u == ~0ULL || I_VALID(until));
+	g_rr.freq = FREQ_WEEKLY, g_rr.scale = SCALE_GREGORIAN;
+	g_rr.count = count, g_rr.inter = inter, g_rr.until = until;
+	H_SETS();
+	ASSUME(RR_WF(&g_rr));
+	g_tgt[0] = proto;
+	verif_j = k, verif_k = k;
+	size_t r = rrul_fill_wly(g_tgt, nti, &g_rr);
+	ASSERT(r <= nti, "rrul_fill_wly: never returns more than asked for");
+	ASSERT(count < 0 || r <= (size_t)count, "rrul_fill_wly: never more than COUNT");
+	if (k < r) {
+		ASSERT(!echs_instant_lt_p(g_tgt[k], proto), "rrul_fill_wly: no occurrence before DTSTART");
+		ASSERT(!echs_instant_lt_p(until, g_tgt[k]), "rrul_fill_wly: no occurrence after UNTIL");
+		SENTINEL("wly an occurrence");
+	}
+	SENTINEL("wly");
+}
